@@ -7,6 +7,7 @@ def run(chk):
                 '{turchin, edit-dist, sca, lexstat with a scorer from 50 seeded permutation runs} x {single, complete, upgma} x thresholds '
                 'drawn from the concept matrices; per-concept matrices captured from _get_matrices; non-trivial = at least two words share an id')
     chk.lean_obligations()
+    lc.turchin_tie(chk)
     lc.run_c06(chk)
 
 
